@@ -166,7 +166,7 @@ fn param_values(rng: &mut Rng) -> Option<Value> {
 pub fn main(ctx: &Ctx) -> i32 {
     ctx.set_rule("services with 0-6 recording interfaces named adversarially (shared prefixes, dotted prefix of another, last element differs, hyphens/digits/upper case) +/- a generated interface; method strings = every registered name x {known, unknown, empty method}, every prefix/suffix of names, empty elements, leading/trailing dots, no dot, service-interface calls; parameters of every JSON type; all 4 flag combinations; distinct = (name-set, method string, flags, parameter class); non-trivial = >=1 registered interface or a service-interface call");
     ctx.assume("don't-care (counted as skipped_unspecified): method strings without a dot (only 'an error reply or close, no recorder called' is required); GetInterfaceDescription whose interface member is absent or not a string; parameter validation of the generated Add/Nop");
-    let ncfg = ctx.tier.pick(1500usize, 20_000usize);
+    let ncfg = ctx.tier.pick(1500usize, 150_000usize);
     let nw = workers();
     par(nw, |w| {
         let mut rng = Rng::lane(ctx.seed, 400 + w as u64);
